@@ -53,6 +53,13 @@ extern "C" int h_sys_switches(void* m, unsigned mask, unsigned order){
   }
   return 0;
 }
+// one setter call: which in 0..4 as above
+extern "C" int h_sys_switch_one(void* m, unsigned which, unsigned on){
+  Sys* s=static_cast<Sys*>(m);
+  switch(which){ case 0: s->Set_CoherentRhoTerms(on!=0); break; case 1: s->Set_NonCoherentRhoTerms(on!=0); break; case 2: s->Set_OtherRhoTerms(on!=0); break;
+                 case 3: s->Set_GammaScalarTerms(on!=0); break; default: s->Set_OtherScalarTerms(on!=0); break; }
+  return 0;
+}
 extern "C" int h_sys_stepping(void* m, unsigned adaptive, unsigned nsteps, unsigned stepper){
   Sys* s=static_cast<Sys*>(m);
   s->Set_AdaptiveStep(adaptive!=0); s->Set_NumSteps(nsteps);
